@@ -904,6 +904,7 @@ def run(ck):
                 ck.guarded(lambda: btprim.check_primitives(ck, t, cfg))
                 ck.guarded(lambda: btprim.check_insert(ck, tu, t, cfg))
                 ck.guarded(lambda: btprim.check_erase(ck, tu, t, cfg))
+                ck.guarded(lambda: btprim.check_bulk_load(ck, tu, t, cfg))
             check_iter_steps(ck, t)
         check_frontends(ck, tu)
     m = n_trees
@@ -917,7 +918,8 @@ def run(ck):
     ck.floor("NODE-CAPACITY", m)
     ck.floor("PRIMITIVE-EFFECT", 4 * m)      # eight primitives per small_traits tree
     ck.floor("INSERT-EFFECT", m)            # leaf and inner level per small_traits tree
-    ck.floor("ERASE-EFFECT", 2 * m)      # two per small_traits tree, half of the trees
+    ck.floor("ERASE-EFFECT", 2 * m)
+    ck.floor("BULK-LOAD-SHAPE", m // 2)      # two per small_traits tree, half of the trees
     ck.floor("ITER-STEP-TWINS", 16 * m)
     ck.floor("FRONTEND-FLAGS", 12 * (m // 8))
     ck.floor("FRONTEND-FORWARD", 4 * 40 * (m // 8))
